@@ -307,7 +307,7 @@ func (c19) Describe(tier string) fw.Description {
 	return fw.Description{
 		Level: "model_checking",
 		Rule: "stateless DFS over all schedules (thread choices at sync/atomic/channel points of stream+root packages, early timer firings, select-case choices) " +
-			"with at most `bound` deviations, of closed harnesses (also: buffer pre-filled, other growth parameters, the processor parked inside the sink until every producer has returned): P producers x 2 rows -> real Stream (SELECT id FROM stream) with data buffer 1|2 under drop / block / block+1ms / expand(ceiling 2|3); " +
+			"with at most `bound` deviations, of closed harnesses (also: buffer pre-filled, other growth parameters, the processor parked inside the sink until every producer has returned, rows without any column): P producers x 2 rows -> real Stream (SELECT id FROM stream) with data buffer 1|2 under drop / block / block+1ms / expand(ceiling 2|3); " +
 			"each execution is one state (DFS node); non-trivial = reached through >=1 deviation from the default schedule; oracle at quiescence: processed+input_dropped==emits, ids distinct, block never drops, nothing is dropped while the buffer can hold every row emitted, cap<=ceiling, per-producer order",
 		Bounds: map[string]any{"producers": "1..3", "rows_per_producer": 2, "buffer": "1,2", "deviations": "quick: 2/1/0 for 1/2/3 producers; thorough: 3/2/1 (time-capped)", "forced_switch_cost": 0},
 		Assumptions: []string{
